@@ -92,8 +92,8 @@ PROPS["C15"] = dict(
 )
 
 PROPS["C03"] = dict(
-    modules=["Sth.Props.C01", "Sth.Props.C08", "Sth.Props.C03", "Sth.Props.C03Close", "Sth.Props.C03Gc", "Sth.Props.C03GcHist", "Sth.Props.C03Open"],
-    theorems=list(CORE_RL) + ['Sth.C03_flush_crash_recovers', 'Sth.C03_flush_crash_against_map', 'Sth.C03_removed_flushed_stays_absent', 'Sth.C03_flushed_unchanged_survives', 'Sth.C03_lastDurable_spec', 'Sth.C03_image_zero', 'Sth.C03_image_full', 'Sth.C03_recovered_store_keeps_working_partial', 'Sth.C03_close_crash_recovers', 'Sth.C03_close_crash_against_map', 'Sth.C03_close_recovered_store_keeps_working_partial', 'Sth.C03_close_images_recover', 'Sth.C03_snapshot_needs_complete_index', 'Sth.C03_igc_interrupted_crash_recovers', 'Sth.C03_pgc_interrupted_crash_recovers', 'Sth.C03_pgc_crash_vs_old_disk', 'Sth.C03_d11_pgc_dirty_index_pool_loses_durable_value', 'Sth.C03_crash_after_gc_history', 'Sth.C03_crash_after_gc_history_against_map', 'Sth.C03_crash_after_gc_history_keeps_working_partial', 'Sth.C03_crash_after_gc_history_cid', 'Sth.C03_flushed_unchanged_survives_gc', 'Sth.C03_removed_flushed_stays_absent_gc', 'Sth.C03_openSteps_last', 'Sth.C03_open_crash_recovers', 'Sth.C03_open_crash_recovers_restarted', 'Sth.C03_open_crash_recovers_durable', 'Sth.C03_open_crash_recovers_close', 'Sth.C03_open_crash_recovers_gc', 'Sth.C03_open_crash_old_or_new', 'Sth.C03_open_crash_first_open'],
+    modules=["Sth.Props.C01", "Sth.Props.C08", "Sth.Props.C03", "Sth.Props.C03Close", "Sth.Props.C03Gc", "Sth.Props.C03GcHist", "Sth.Props.C03Open", "Sth.Props.C03D34"],
+    theorems=list(CORE_RL) + ['Sth.C03_flush_crash_recovers', 'Sth.C03_flush_crash_against_map', 'Sth.C03_removed_flushed_stays_absent', 'Sth.C03_flushed_unchanged_survives', 'Sth.C03_lastDurable_spec', 'Sth.C03_image_zero', 'Sth.C03_image_full', 'Sth.C03_recovered_store_keeps_working_partial', 'Sth.C03_close_crash_recovers', 'Sth.C03_close_crash_against_map', 'Sth.C03_close_recovered_store_keeps_working_partial', 'Sth.C03_close_images_recover', 'Sth.C03_snapshot_needs_complete_index', 'Sth.C03_igc_interrupted_crash_recovers', 'Sth.C03_pgc_interrupted_crash_recovers', 'Sth.C03_pgc_crash_vs_old_disk', 'Sth.C03_d11_pgc_dirty_index_pool_loses_durable_value', 'Sth.C03_crash_after_gc_history', 'Sth.C03_crash_after_gc_history_against_map', 'Sth.C03_crash_after_gc_history_keeps_working_partial', 'Sth.C03_crash_after_gc_history_cid', 'Sth.C03_flushed_unchanged_survives_gc', 'Sth.C03_removed_flushed_stays_absent_gc', 'Sth.C03_openSteps_last', 'Sth.C03_open_crash_recovers', 'Sth.C03_open_crash_recovers_restarted', 'Sth.C03_open_crash_recovers_durable', 'Sth.C03_open_crash_recovers_close', 'Sth.C03_open_crash_recovers_gc', 'Sth.C03_open_crash_old_or_new', 'Sth.C03_open_crash_first_open', 'Sth.C03_d34_put_after_primary_flush_loses_durable_value', 'Sth.C03_d34_put_after_index_flush_frees_durable_value'],
     runs=[dict(engine="crash", quick=48, thorough=2000, nontrivial=["torn", "at:index", "at:primary", "at:freelist", "at:store", "flush-image-interior", "open-image-interior"]),
           # crashes inside an Open that upgrades a legacy store or translates the index to another bucket bit size ("inside Close or Open")
           dict(engine="crash", quick=10, thorough=300, extra=["-profile", "c10"], nontrivial=["at:upgrade", "at:remap"]),
